@@ -19,6 +19,7 @@ import itertools
 from fractions import Fraction
 
 from .. import algebra as A
+from .. import pcmodel as P
 from .. import runmodel as R
 from .. import sweep
 from .. import symeval as S
@@ -449,12 +450,44 @@ def leprohq_tables():
     return valid, str(root)
 
 
+def _leprohq_folded_arguments(proj):
+    """(projection, current) pairs that reach each LeProHQ call node when the heavy channel classes are folded (for call sites whose
+    arguments are not literals: class attributes, parameters of a shared helper ...): id(call node) -> set of pairs."""
+    out = {}
+    ev = S.Evaluator(proj, on_call=P.above_threshold_hook)
+    sym = P.Sym()
+    for c in P.channel_classes(proj):
+        if ".heavy." not in c.fq:
+            continue
+        try:
+            obj = P.instantiate(ev, c, sym)
+        except (A.Undecided, S.Raised):
+            continue
+        for k in range(4):
+            r = P.fold_order(ev, obj, k)
+            if r.status != "rsl":
+                continue
+            for part in ("reg", "sing", "loc"):
+                try:
+                    A.set_budget(300_000)
+                    P.eval_part(ev, r.rsl, part, sym.z)
+                except (A.Undecided, S.Raised):
+                    pass
+                finally:
+                    A.set_budget(None)
+    for d, args, node in getattr(ev, "opaque_ext_log", []):
+        if d.startswith("LeProHQ.") and node is not None and len(args) >= 2 and all(isinstance(a, str) for a in args[:2]):
+            out.setdefault(id(node), set()).add((args[0], args[1]))
+    return out
+
+
 def check_leprohq(rep, proj):
     valid, where = leprohq_tables()
     if valid is None:
         rep.undecided("C16.ext", "", "LeProHQ", where)
         return
     n = 0
+    folded = None
     for m in proj.modules.values():
         for node in ast.walk(m.tree):
             if not (isinstance(node, ast.Call) and isinstance(node.func, ast.Attribute) and isinstance(node.func.value, ast.Name) and node.func.value.id == "LeProHQ"):
@@ -466,7 +499,17 @@ def check_leprohq(rep, proj):
                 rep.undecided("C16.ext", site, construct, f"LeProHQ.{fn} is not one of the audited entry points {sorted(valid)}")
                 continue
             if len(node.args) < 2 or not all(isinstance(a, ast.Constant) and isinstance(a.value, str) for a in node.args[:2]):
-                rep.undecided("C16.ext", site, construct, "projection / current are not string literals")
+                # not literals at the call site: the pairs that reach it when the heavy channels are folded
+                if folded is None:
+                    folded = _leprohq_folded_arguments(proj)
+                pairs = folded.get(id(node))
+                if not pairs:
+                    rep.undecided("C16.ext", site, construct, "projection / current are not string literals and no folded channel reaches the call")
+                    continue
+                n += 1
+                badp = sorted(p_ for p_ in pairs if p_ not in valid[fn])
+                rep.check(not badp, "C16.ext", site, construct, f"every pair reaching the call {sorted(pairs)} is tabulated by the installed LeProHQ",
+                          f"the installed LeProHQ has no {fn} entry for {badp}: the first evaluation ends in a bare KeyError / AttributeError from the library", key=f"{fn}|folded|{m.name}|{ast.unparse(node)[:40]}")
                 continue
             key = (node.args[0].value, node.args[1].value)
             n += 1
@@ -474,6 +517,24 @@ def check_leprohq(rep, proj):
                       f"the installed LeProHQ has no {fn} entry for {key}: the first evaluation ends in a bare KeyError / AttributeError from the library "
                       f"(available: {sorted(valid[fn])})", key=f"{fn}|{key}|{m.name}")
     rep.floor("LeProHQ call sites audited", n, 35)
+
+
+def check_conv(rep, proj):
+    """The lattice keeps the convolutions opaque (atoms conv(kernel, point, j)); that the convolution routine itself returns for every
+    shape of distribution a channel can hand it (any subset of regular / singular / local part, both grid modes) is decided here,
+    on the folded routine - an internal error there (TypeError, IndexError ...) surfaces in every run that reaches such a channel."""
+    from . import c01
+
+    conv = proj.func(c01.CONV, "convolution")
+    n = 0
+    for label, outcome in c01.convolution_outcomes(proj):
+        construct = f"{conv.fq}[{label}]"
+        if outcome.startswith("undecided"):
+            rep.undecided("C16.conv", conv.site, construct, outcome)
+            continue
+        n += 1
+        rep.check(outcome == "ok", "C16.conv", conv.site, construct, "returns for this shape of distribution", f"{outcome}: an internal error, not a rejection", key=label)
+    rep.floor("convolution shapes folded", n, 28)
 
 
 def run(rep, proj, tier):
@@ -499,6 +560,7 @@ def run(rep, proj, tier):
         "TMC shifted point satisfies 0 < xi <= x (decided under C10.vars)",
     ]
     check_leprohq(rep, proj)
+    check_conv(rep, proj)
     check_lattice(rep, proj, tier)
     check_kin(rep, proj, tier)
     check_nan(rep, proj, tier)
